@@ -139,13 +139,17 @@ def jobs(tier):
                 body += S[n].text + "\n"
         return "#include <verif_base.h>\n" + inc + pre + (SHIM_DECL if shims else "") + "namespace Avoid {\n" + body + "}\n" + "".join(WRAP[w] for w in wrappers)
 
-    grid = 5 if tier == "quick" else 7
+    grid = 7 if tier == "quick" else 15
     exp_post = [r'\.postcondition\.\d+']
     dom_grid = "bit-precise IEEE doubles, every coordinate an integer in [0,%d]" % grid
     # ---- leaf: vecDir
-    js.append(Job("vecDir_grid", "D", spec, "h_vecDir", cxx=tu(["vecDir"], ["vecDir"]), enforce="w_vecDir",
-                  defines=["JOB_vecDir_grid", "GRID=%d" % grid], expect=exp_post + [r'COLA_ASSERT|assertion'],
-                  slices=[S["vecDir"]], domain=dom_grid + ", maybeZero = 0", timeout=600))
+    # the grid jobs are case-split on a.x (one job per value): each split finishes in ~30 s even on [0,15], the unsplit grid [0,5] took ~55 s
+    def split_jobs(name, entry, cxx, enforce, define, slices, domain_extra):
+        for lo in range(grid + 1):
+            js.append(Job("%s_ax%d" % (name, lo), "D", spec, entry, cxx=cxx, enforce=enforce,
+                          defines=[define, "GRID=%d" % grid, "SPLIT_LO=%d" % lo, "SPLIT_HI=%d" % lo], expect=exp_post, slices=slices,
+                          domain=dom_grid + ", a.x = %d%s" % (lo, domain_extra), timeout=900, flags=["--sat-solver", "cadical"], backend="sat:cadical"))
+    split_jobs("vecDir_grid", "h_vecDir", tu(["vecDir"], ["vecDir"]), "w_vecDir", "JOB_vecDir_grid", [S["vecDir"]], ", maybeZero = 0")
     js.append(Job("vecDir_any", "U", spec, "h_vecDir", cxx=tu(["vecDir"], ["vecDir"]), enforce="w_vecDir",
                   defines=["JOB_vecDir_any"], expect=exp_post, slices=[S["vecDir"]],
                   domain="all doubles, maybeZero >= 0", timeout=300))
@@ -158,16 +162,9 @@ def jobs(tier):
                   domain="bit-precise IEEE doubles, every coordinate an integer in [0,%d]; three calls of the real vecDir" % gs,
                   timeout=600))
     # ---- 6-coordinate predicates directly on the grid (real vecDir inlined)
-    js.append(Job("colinear_grid", "D", spec, "h_colinear", cxx=tu(["eq", "vecDir", "colinear"], ["colinear"]),
-                  enforce="w_colinear", defines=["JOB_colinear_grid", "GRID=%d" % grid], expect=exp_post,
-                  slices=[S["colinear"], S["vecDir"], S["eq"]], domain=dom_grid + ", tolerance = 0", timeout=600))
-    js.append(Job("pointOnLine_grid", "D", spec, "h_pointOnLine",
-                  cxx=tu(["vecDir", "inBetween", "pointOnLine"], ["pointOnLine"]),
-                  enforce="w_pointOnLine", defines=["JOB_pointOnLine_grid", "GRID=%d" % grid], expect=exp_post,
-                  slices=[S["pointOnLine"], S["inBetween"], S["vecDir"]], domain=dom_grid + ", tolerance = 0", timeout=600))
-    js.append(Job("inBetween_grid", "D", spec, "h_inBetween", cxx=tu(["vecDir", "inBetween"], ["inBetween"]),
-                  enforce="w_inBetween", defines=["JOB_inBetween_grid", "GRID=%d" % grid], expect=exp_post,
-                  slices=[S["inBetween"], S["vecDir"]], domain=dom_grid + ", collinear points", timeout=600))
+    split_jobs("colinear_grid", "h_colinear", tu(["eq", "vecDir", "colinear"], ["colinear"]), "w_colinear", "JOB_colinear_grid", [S["colinear"], S["vecDir"], S["eq"]], ", tolerance = 0")
+    split_jobs("pointOnLine_grid", "h_pointOnLine", tu(["vecDir", "inBetween", "pointOnLine"], ["pointOnLine"]), "w_pointOnLine", "JOB_pointOnLine_grid", [S["pointOnLine"], S["inBetween"], S["vecDir"]], ", tolerance = 0")
+    split_jobs("inBetween_grid", "h_inBetween", tu(["vecDir", "inBetween"], ["inBetween"]), "w_inBetween", "JOB_inBetween_grid", [S["inBetween"], S["vecDir"]], ", collinear points")
     # ---- Point comparison
     js.append(Job("point_eq", "U", spec, "h_point_eq", cxx=tu(["eq", "ne"], ["point_eq"]), enforce="w_point_eq",
                   defines=["JOB_point_eq"], expect=exp_post, slices=[S["eq"]], domain="all doubles"))
